@@ -338,7 +338,8 @@ func (p *pkgInfo) MethodsOf(n *types.Named, ptr bool) []*types.Func {
 	for i := range funcs {
 		s := funcs[i].Type().(*types.Signature)
 
-		if _, ok := s.Recv().Type().(*types.Pointer); !ok {
+		// the receiver may be written through an alias of the pointer type (type P = *T; func (P) M())
+		if _, ok := types.Unalias(s.Recv().Type()).(*types.Pointer); !ok {
 			notPtrMethods = append(notPtrMethods, funcs[i])
 		}
 	}
